@@ -10,7 +10,7 @@ PROP = {
     "suites": [{
         "name": "epochs",
         "harness": "c15",
-        "header": "From Coq Require Import List String ZArith.\nFrom Exo Require Import Base.Store C15.Model.\nImport ListNotations.",
+        "header": "From Coq Require Import List String ZArith.\nFrom Exo Require Import Base.Store Base.Util C15.Model.\nImport ListNotations.",
         "case_type": "case",
         "checks": {"corr": "check_case", "monitor": "monitor_case"},
         "kinds": {"corr": "corr", "monitor": "monitor"},
